@@ -259,3 +259,110 @@ Section RoundTrip.
         rewrite H2. reflexivity.
   Qed.
 End RoundTrip.
+
+(* ------------------------------------------------------------- histories on ONE object *)
+(* dump_file (as generated from the source) always stores and writes the freshly generated
+   document, whatever document the object held before *)
+Lemma dump_file_regenerates doc g : dump_file_document doc g = Some g.
+Proof. reflexivity. Qed.
+
+Definition o_run := obj_run encode_value decode_value dump_file_document.
+Definition o_step := obj_step encode_value decode_value dump_file_document.
+
+(* storing, under an existing key, a tuple with the type and checks of the tuple found there
+   keeps the schema *)
+Lemma dict_set_schema (d defaults : pdict) k dflt v :
+  same_schema d defaults -> dict_get d k = Some dflt ->
+  same_schema (dict_set d (mkParam (fst k) (snd k) (p_type dflt) v (p_check dflt))) defaults.
+Proof.
+  intros [Hk Ht] Hg.
+  set (newp := mkParam (fst k) (snd k) (p_type dflt) v (p_check dflt)).
+  assert (Hknew : pkey newp = k) by (destruct k; reflexivity).
+  pose proof (dict_set_get_same d newp) as Hsame. rewrite Hknew in Hsame.
+  assert (Hin : In k (map pkey d)).
+  { destruct (dict_get_Some _ _ _ Hg) as (Hi & Hp). rewrite <- Hp. apply in_map. exact Hi. }
+  split.
+  - rewrite dict_set_keys by (rewrite Hknew; exact Hin). exact Hk.
+  - intros k' p' q' H1 H2. destruct (key_eqb k' k) eqn:E.
+    + apply key_eqb_eq in E. subst k'. rewrite Hsame in H1. injection H1 as <-.
+      cbn [newp p_type p_check]. eapply Ht; eassumption.
+    + apply key_eqb_neq in E. rewrite dict_set_get_other in H1 by (rewrite Hknew; exact E).
+      eapply Ht; eassumption.
+Qed.
+
+Lemma import_schema defaults : forall (doc : tdoc) (d d' : pdict),
+  same_schema d defaults -> imp_doc doc d = Some d' -> same_schema d' defaults.
+Proof.
+  induction doc as [|[k tv] rest IH]; intros d d' Hs Hrun.
+  - injection Hrun as <-. exact Hs.
+  - cbn [imp_doc import_document] in Hrun.
+    destruct (dict_get d k) as [dflt|] eqn:Hg; [|eapply IH; eassumption].
+    destruct (decode_value (p_type dflt) (p_value dflt) (Some tv)) as [v|]; [|discriminate].
+    unfold add_parameter in Hrun. cbn [p_check p_value] in Hrun.
+    destruct (p_check dflt v); [|discriminate].
+    eapply IH; [|exact Hrun]. apply dict_set_schema; assumption.
+Qed.
+
+Lemma step_schema defaults o op o' out :
+  same_schema (o_dict o) defaults -> o_step o op = Some (o', out) ->
+  same_schema (o_dict o') defaults /\
+  forall f d, In (f, d) out -> f = gen_doc d /\ same_schema d defaults.
+Proof.
+  intros Hs Hstep. destruct op as [k v| |[doc|]]; cbn in Hstep.
+  - unfold obj_set in Hstep. destruct (dict_get (o_dict o) k) as [p|] eqn:Hg; [|discriminate].
+    unfold add_parameter in Hstep. cbn [p_check p_value] in Hstep.
+    destruct (p_check p v); [|discriminate]. cbn in Hstep. injection Hstep as <- <-.
+    split; [|intros f d []]. cbn [o_dict].
+    destruct (dict_get_Some _ _ _ Hg) as (_ & Hp).
+    replace (p_name p) with (fst k) by (rewrite <- Hp; reflexivity).
+    replace (p_section p) with (snd k) by (rewrite <- Hp; reflexivity).
+    apply dict_set_schema; assumption.
+  - injection Hstep as <- <-. split; [exact Hs|].
+    intros f d [H|[]]. injection H as <- <-. split; [reflexivity|exact Hs].
+  - destruct (import_document decode_value doc (o_dict o)) as [d1|] eqn:Hi; [|discriminate].
+    cbn in Hstep. injection Hstep as <- <-. split; [|intros f d []].
+    cbn [o_dict]. eapply import_schema; eassumption.
+  - injection Hstep as <- <-. split; [exact Hs|].
+    intros f d [H|[]]. injection H as <- <-. split; [reflexivity|exact Hs].
+Qed.
+
+(* every file written at any moment of any history on one object is the document generated from
+   the dictionary the object held at that moment (and that dictionary has the default schema) *)
+Lemma run_outputs defaults : forall ops o o' out,
+  same_schema (o_dict o) defaults -> o_run ops o = Some (o', out) ->
+  forall f d, In (f, d) out -> f = gen_doc d /\ same_schema d defaults.
+Proof.
+  induction ops as [|op rest IH]; intros o o' out Hs Hrun f d Hin.
+  - injection Hrun as <- <-. destruct Hin.
+  - cbn [o_run obj_run] in Hrun. fold o_step in Hrun.
+    destruct (o_step o op) as [[o1 out1]|] eqn:Hstep; [|discriminate].
+    destruct (step_schema defaults o op o1 out1 Hs Hstep) as (Hs1 & Hout1).
+    change (obj_run encode_value decode_value dump_file_document rest o1) with (o_run rest o1) in Hrun.
+    destruct (o_run rest o1) as [[o2 out2]|] eqn:Hr; [|discriminate].
+    injection Hrun as <- <-. apply in_app_iff in Hin. destruct Hin as [Hin|Hin].
+    + apply Hout1. exact Hin.
+    + eapply IH; eassumption.
+Qed.
+
+Section HistoryRoundTrip.
+  Variable tk : tdoc -> tdoc.
+  Hypothesis tk_entries : forall doc k tv, In (k, tv) (tk doc) <-> In (k, tv) doc.
+  Hypothesis tk_nodup : forall doc, NoDup (map fst doc) -> NoDup (map fst (tk doc)).
+
+  (* T14d (histories).  Whatever was done before on the SAME Parameters object (files read --
+     existing or missing --, values set, earlier dumps), every file written by dump_file, read by
+     a fresh object, gives every parameter the value the dumping object held at that moment. *)
+  Theorem toml_history_roundtrip (defaults : pdict) (ops : list pop) o' out :
+    NoDup (map pkey defaults) ->
+    o_run ops (mkObj defaults None) = Some (o', out) ->
+    forall f d, In (f, d) out -> Forall admissible d ->
+      exists d', imp_doc (tk f) defaults = Some d' /\
+        forall k, option_map p_value (dict_get d' k) = option_map p_value (dict_get d k).
+  Proof.
+    intros Hnd Hrun f d Hin Hadm.
+    destruct (run_outputs defaults ops (mkObj defaults None) o' out (same_schema_refl defaults) Hrun f d Hin)
+      as (-> & Hs).
+    destruct (toml_roundtrip tk tk_entries tk_nodup d defaults Hnd Hs Hadm) as (d' & H1 & _ & H2).
+    exists d'. split; assumption.
+  Qed.
+End HistoryRoundTrip.
